@@ -68,6 +68,65 @@ pub fn te_from_json(e: &J) -> Option<TE> {
     })
 }
 
+/// Renames the type variables of an expression (the numbering of variables follows hash-map
+/// iteration order in the real pipeline, so results must not depend on it).
+fn rename(e: &TE, pi: &[usize]) -> TE {
+    let r = |v: &TypeVariable| tv(pi[idx(*v)]);
+    match e {
+        TE::Equal { id } => TE::eq(r(id)),
+        TE::Mapping { key, value } => TE::mapping(r(key), r(value)),
+        TE::DynamicArray { element } => TE::dyn_array(r(element)),
+        TE::FixedArray { element, length } => TE::FixedArray { element: r(element), length: *length },
+        TE::Packed { types, is_struct } => TE::Packed {
+            types:     types.iter().map(|s| Span::new(r(&s.typ), s.offset, s.size)).collect(),
+            is_struct: *is_struct,
+        },
+        other => other.clone(),
+    }
+}
+
+/// Runs the unifier on the judgement set renamed by `pi` and maps the outcome back.
+pub fn run_unify_renamed(nvars: usize, judgements: &[(usize, TE)], budget: u64, pi: &[usize]) -> UnifyOutcome {
+    let renamed: Vec<(usize, TE)> = judgements.iter().map(|(v, e)| (pi[*v], rename(e, pi))).collect();
+    let mut out = run_unify(nvars, &renamed, budget);
+    // inverse renaming of the declared variables; variables the unifier allocated keep their ids
+    let mut inv = vec![0usize; nvars];
+    for (i, p) in pi.iter().enumerate() {
+        inv[*p] = i;
+    }
+    let back = |v: usize| if v < nvars { inv[v] } else { v };
+    let back_e = |e: &J| -> J {
+        let mut e = e.clone();
+        for f in ["key", "val", "el", "id"] {
+            if let Some(x) = e.get(f).and_then(J::as_u64) {
+                e[f] = json!(back(x as usize));
+            }
+        }
+        if let Some(sp) = e.get("spans").and_then(J::as_array).cloned() {
+            e["spans"] = J::Array(sp.iter().map(|s| json!([back(s[0].as_u64().unwrap_or(0) as usize), s[1], s[2]])).collect());
+        }
+        e
+    };
+    let mut vars: Vec<(usize, Vec<usize>, Vec<J>)> = out
+        .vars
+        .iter()
+        .map(|(v, cls, ex)| {
+            let mut c: Vec<usize> = cls.iter().map(|m| back(*m)).collect();
+            c.sort_unstable();
+            (back(*v), c, ex.iter().map(back_e).collect())
+        })
+        .collect();
+    vars.sort_by_key(|x| x.0);
+    out.vars = vars;
+    out
+}
+
+fn random_perm(rng: &mut StdRng, n: usize) -> Vec<usize> {
+    let mut p: Vec<usize> = (0..n).collect();
+    p.shuffle(rng);
+    p
+}
+
 pub struct UnifyOutcome {
     /// per variable (declared ones first, then any the unifier allocated): class members and expressions
     pub vars:    Vec<(usize, Vec<usize>, Vec<J>)>,
@@ -156,6 +215,9 @@ fn norm_outcome(vars: &[(usize, Vec<usize>, Vec<J>)], declared: usize) -> Vec<(V
                 e[f] = json!(class_of(x as usize));
             }
         }
+        if let Some(sp) = e.get("spans").and_then(J::as_array).cloned() {
+            e["spans"] = J::Array(sp.iter().map(|s| json!([class_of(s[0].as_u64().unwrap_or(0) as usize), s[1], s[2]])).collect());
+        }
         if e["k"] == "conflict" {
             e = json!({"k": "conflict"});
         }
@@ -218,6 +280,7 @@ pub fn replay(o: &Opts) -> R<()> {
     let mut w = Ndjson::create(&o.str("trace")?)?;
     w.put(&json!({"ev": "begin"}));
     let mut n = 0u64;
+    let mut prng = StdRng::seed_from_u64(0xbeef);
     let mut outside = Vec::new();
     let mut n_outside = 0u64;
     let mut nondeterministic = 0u64;
@@ -233,7 +296,7 @@ pub fn replay(o: &Opts) -> R<()> {
             if r % 2 == 1 {
                 shuffled.reverse();
             }
-            let out = run_unify(nvars, &shuffled, 100_000);
+            let out = if r < 2 { run_unify(nvars, &shuffled, 100_000) } else { let pi = random_perm(&mut prng, nvars); run_unify_renamed(nvars, &shuffled, 100_000, &pi) };
             let norm = norm_outcome(&out.vars, nvars);
             if !out.stopped && out.panic.is_none() && !allowed.contains(&norm) {
                 n_outside += 1;
@@ -429,7 +492,7 @@ pub fn random(o: &Opts) -> R<()> {
             if r > 0 {
                 s.shuffle(&mut rng);
             }
-            let out = run_unify(nv, &s, 200_000);
+            let out = if r == 0 { run_unify(nv, &s, 200_000) } else { let pi = random_perm(&mut rng, nv); run_unify_renamed(nv, &s, 200_000, &pi) };
             if out.stopped {
                 stopped += 1;
             }
@@ -465,6 +528,27 @@ pub fn determinism(o: &Opts) -> R<()> {
     // the program on which the pinned tree was order-dependent: slot 0 used as a dynamic array and
     // written with a bool and an address
     progs.push(("known-order-dependent".into(), crate::util::unhex("60006000526020600020600035016001905536156000553360005500")?, runs * 3));
+    // a slot written whole with a fixed-width non-numeric value and read through several sub-words
+    for i in 0..(nprog / 4).max(6) {
+        let mut c: Vec<u8> = vec![0x60, 0x00, 0x54]; // sload(0)
+        let reads = 2 + i % 2;
+        for k in 0..reads {
+            let off = [0u8, 8, 16, 24, 160][(i + k) % 5];
+            c.push(0x80); // dup
+            if off > 0 {
+                c.extend([0x60, off, 0x1c]);
+            }
+            c.extend([0x60, 0xff, 0x16, 0x60, 5 + k as u8, 0x55]);
+        }
+        c.push(0x50);
+        match i % 3 {
+            0 => c.extend([0x34, 0x15]),       // iszero(callvalue): a bool
+            1 => c.push(0x33),                 // caller: an address
+            _ => c.extend([0x34, 0x15, 0x15]), // iszero(iszero(..))
+        }
+        c.extend([0x60, 0x00, 0x55, 0x00]);
+        progs.push(("whole-write-subword-reads".into(), c, runs * 3));
+    }
     for _ in 0..nprog {
         let p = if rng.gen_bool(0.6) { crate::idioms::random_contract(&mut rng).1 } else { progen::any(&mut rng).code };
         progs.push(("generated".into(), p, runs));
@@ -486,7 +570,8 @@ pub fn determinism(o: &Opts) -> R<()> {
         for _ in 0..*n {
             let r = vmrun::analyze(code, &lim, ScriptedWatchdog::new(1_000_000, None, 50_000_000));
             let key = match &r {
-                Ok(Ok(l)) => format!("ok:{}", vmrun::layout_json(l)),
+                // conflict explanations are not part of the result (they quote type-variable numbers)
+                Ok(Ok(l)) => format!("ok:{}", J::Array(crate::layouts::entries_json(l).into_iter().map(|mut e| { e.as_object_mut().map(|o| o.remove("idx")); e }).collect())),
                 Ok(Err(_)) => "err".to_string(),
                 Err(p) => format!("panic:{p}"),
             };
